@@ -3,5 +3,5 @@ import Driver.Fam.Toast
 open Driver
 /-- families of area "toast" -/
 def main (args : List String) : IO UInt32 :=
-  run [Fam.Toast.toastptr, Fam.Toast.toastrel, Fam.Toast.pglz, Fam.Toast.lz4, Fam.Toast.lz4go, Fam.Toast.pglzgo,
+  run [Fam.Toast.toastptr, Fam.Toast.toastrel, Fam.Toast.toastrel2, Fam.Toast.pglz, Fam.Toast.lz4, Fam.Toast.lz4go, Fam.Toast.pglzgo,
        Fam.Toast.toaststats, Fam.Toast.toastmut] args
